@@ -15,6 +15,10 @@ var (
 	// there). Element values in the band [2^63, 2^85) are kept out of the workload (index-like arguments >= 2^63 are generated: they only clamp); from 2^85 on every
 	// double is a multiple of 2^32, the modular result is 0 and goja agrees.
 	exclHugeNumbers = false
+	// inbox C17-17-tolocalestring-detach-typeerror.md: %TypedArray%.prototype.toLocaleString throws TypeError when an element's
+	// toLocaleString detaches the buffer (spec: the remaining elements are undefined -> empty strings). While open, that TypeError is
+	// accepted for the "tls" op (memory-safety monitors stay armed). Set to false once merged.
+	tolerateToLocaleDetachTypeError = true
 )
 
 type gen struct {
@@ -551,6 +555,18 @@ func (g *gen) ops() []opGen {
 		})},
 		{1, view(func(id int, v *taref.TypedArray) *Op {
 			return &Op{K: core.Pick(r, []string{"toString", "toLocaleString"}), V: id}
+		})},
+		{3, view(func(id int, v *taref.TypedArray) *Op { // toLocaleString with a hostile Number/BigInt.prototype.toLocaleString
+			op := &Op{K: "tls", V: id, N: g.id(), At: -1}
+			if r.Chance(75, 100) {
+				op.At = r.Range(0, v.Length)
+				if r.Chance(60, 100) && !v.Buf.Detached {
+					op.E = []Eff{{K: "detach", B: bufOf(v)}}
+				} else {
+					op.E = g.effects(bufOf(v))
+				}
+			}
+			return op
 		})},
 		{3, view(func(id int, v *taref.TypedArray) *Op { return &Op{K: "reverse", V: id} })},
 		{12, view(func(id int, v *taref.TypedArray) *Op { // set
